@@ -159,9 +159,12 @@ class C18(Check):
               "evaluated at the unperturbed model",
         "M4": "sibling agreement of the evaluations inside one coefficient: the perturbed-up, perturbed-down and (for scaling) unperturbed "
               "evaluations are the same call with the same state / options; they may differ only through the perturbed model value",
+        "M5": "the caller's state and options reach the computation: the response-coefficient worker writes a supplied state into the model before "
+              "the first steady-state evaluation, the elasticity routines evaluate fluxes at the supplied variables and time, and the Monte-Carlo wrappers "
+              "forward every analysis option (to_scan, variables, time, normalized, displacement, rel_norm, integrator) under its own name",
         "M3": "sequential and parallel execution use the same worker with the same arguments; results are keyed by the scanned parameter",
     }
-    floors = {"M1": 7, "M2": 9, "M3": 2, "M4": 3}
+    floors = {"M5": 6, "M1": 7, "M2": 9, "M3": 2, "M4": 3}
     decided = [
         "every routine leaves the model's parameter and initial values as it found them (sequential execution)",
         "coefficients are central difference quotients with relative displacement; scaled by value/flux at the unperturbed state",
@@ -194,6 +197,7 @@ class C18(Check):
             self.m2(mod.func(name))
         self.m3(mod)
         self.m4(mod)
+        self.m5(mod, mc)
 
     def m1(self, fn, rel: str = MOD) -> None:
         q = fn.name
@@ -396,6 +400,93 @@ class C18(Check):
 
     def m4(self, mod) -> None:
         """(decided inside m2: the evaluations of one coefficient are compared there)"""
+
+    def m5(self, mod, mc) -> None:
+        """The state and the options the caller supplies reach the computation."""
+        # (a) the worker applies the supplied state before the first steady-state evaluation
+        w = mod.func("_response_coefficient_worker")
+        import re as _re
+
+        class IE(SymInterp):
+            loop_unroll = 1
+            epochs = True
+
+        n_paths = 0
+        bad = None
+        for st, _ in IE().run_function(w, Sym()).returns:
+            if dict(st.conds).get("y0 is None") is not False:
+                continue
+            n_paths += 1
+            writes = [e[1] for e in st.events if e[0] == "call" and _re.match(r"(AT\(\d+, )?model\.(update_|add_|remove_|scale_)", e[1])]
+            first_is_state = bool(writes) and _re.sub(r"^AT\(\d+, ", "", writes[0]).startswith("model.update_variables(y0)")
+            epochs_ = [int(k) for e in st.events for x in e[1:] if isinstance(x, str) for k in _re.findall(r"AT\((\d+), _steady_state_worker\(", x)]
+            if not first_is_state or not epochs_ or min(epochs_) < 1:
+                bad = st
+        anchor = next((c for c in ast.walk(w) if isinstance(c, ast.Call) and norm(c) == "model.update_variables(y0)"), w)
+        if n_paths == 0:
+            self.undecided_ob("M5", MOD, w.name, "supplied-state-applied", w, "no path with a supplied state (y0 is not None) found")
+        elif bad is not None:
+            self.violated("M5", MOD, w.name, "supplied-state-applied", anchor, "with a state supplied (y0 is not None) the steady states are computed without (or before) writing it into the model: "
+                          "the coefficients belong to the model's own initial values, not to the given state",
+                          witness="response_coefficients(m, variables={'x': 5.0}) returns the same numbers as response_coefficients(m) for a bistable model started in the other basin")
+        else:
+            self.holds("M5", MOD, w.name, "supplied-state-applied", anchor, f"model.update_variables(y0) precedes the first steady-state evaluation on all {n_paths} paths with a supplied state")
+        # (a') what is written back afterwards covers the variables that were overwritten (the keys of the supplied state)
+        for st, _ in IE().run_function(w, Sym()).returns:
+            if dict(st.conds).get("y0 is None") is not False:
+                continue
+            ups = [e[1] for e in st.events if e[0] == "call" and _re.match(r"(AT\(\d+, )?model\.update_variables\(", e[1])]
+            if len(ups) < 2:
+                continue
+            txt = _re.sub(r"AT\(\d+, ", "(", ups[-1])
+            try:
+                arg = ast.parse(txt, mode="eval").body.args[0]
+            except (SyntaxError, IndexError, AttributeError):
+                continue
+            if isinstance(arg, ast.DictComp):
+                for g in arg.generators:
+                    for cnd in g.ifs:
+                        if isinstance(cnd, ast.Compare) and len(cnd.ops) == 1 and isinstance(cnd.ops[0], ast.NotIn) and norm(cnd.comparators[0]).startswith("y0"):
+                            self.violated("M1", MOD, w.name, "restores-what-was-overwritten", anchor, f"the values written back afterwards are those of the variables NOT in the supplied state (`{norm(cnd)}`): "
+                                          "the overwritten initial values stay in the caller's model", witness="mca.response_coefficients(m, variables={'x': 5.0}, parallel=False); m.get_initial_conditions()['x'] == 5.0 afterwards")
+                            break
+            break
+        # (b) the elasticity routines evaluate at the supplied variables / time
+        for name in ("variable_elasticities", "parameter_elasticities"):
+            f = mod.func(name)
+            evals = [c for c in ast.walk(f) if isinstance(c, ast.Call) and isinstance(c.func, ast.Attribute) and c.func.attr == "get_fluxes"]
+            if not evals:
+                continue
+            probs = []
+            for c in evals:
+                kw = {k.arg: norm(k.value) for k in c.keywords}
+                if "variables" not in kw or not ("variables" in kw["variables"] or kw["variables"] in ("upper", "lower")):
+                    pass
+                if kw.get("time") != "time":
+                    probs.append(f"`{norm(c)[:60]}` does not evaluate at the supplied time")
+                if "variables" not in kw:
+                    probs.append(f"`{norm(c)[:60]}` does not evaluate at the supplied variables")
+            if probs:
+                self.violated("M5", MOD, name, "evaluates-at-supplied-state", evals[0], probs[0])
+            else:
+                self.holds("M5", MOD, name, "evaluates-at-supplied-state", evals[0], f"all {len(evals)} flux evaluations take variables= and time=time")
+        # (c) the Monte-Carlo wrappers hand every analysis option on under its own name
+        OPTIONS = ("to_scan", "variables", "time", "normalized", "displacement", "rel_norm", "integrator")
+        for name, f in mc.functions.items():
+            if "." in name or name.startswith("_"):
+                continue
+            inner = [c for c in ast.walk(f) if isinstance(c, ast.Call) and norm(c.func) == "partial" and c.args and norm(c.args[0]).startswith("mca.")]
+            if len(inner) != 1:
+                continue
+            params = [a.arg for a in f.args.args + f.args.kwonlyargs]
+            kw = {k.arg: norm(k.value) for k in inner[0].keywords}
+            applied_vars = any(isinstance(c, ast.Call) and norm(c) == "model.update_variables(variables)" for c in ast.walk(f))
+            missing = [o for o in OPTIONS if o in params and kw.get(o) != o and not (o == "variables" and applied_vars)]
+            if missing:
+                self.violated("M5", "mc.py", name, "options-forwarded", inner[0], f"the option(s) {missing} are accepted but do not reach {norm(inner[0].args[0])}: the caller's choice is silently ignored",
+                              witness=f"mc.{name}(..., {missing[0]}=<non-default>) returns the default-option result")
+            else:
+                self.holds("M5", "mc.py", name, "options-forwarded", inner[0], f"every analysis option among {[o for o in OPTIONS if o in params]} reaches {norm(inner[0].args[0])} under its own name")
 
     def m3(self, mod) -> None:
         fn = mod.func("response_coefficients")
